@@ -13,11 +13,11 @@ LEVEL_TEXT = ("Coq theorems about the weighting functional every score instantia
               "with w = w x unweighted result), broadcast by dimension name, unit weights, scaling by a constant, additivity in the weights "
               "under equal NaN masks (with a proved counterexample showing the hypothesis is necessary), and invariance of ratio scores "
               "under a positive constant; tied to the code by evaluating exactly these relations on every weight-accepting function.")
-LEVEL_NOTE = ("the functional (values * weights, then skipna mean) is a hand model of functions.apply_weights + xarray mean, validated by the "
-              "correspondence runs of C05; rmse is checked through rmse^2 (it is the root of the weight-linear mse, see C05)")
+LEVEL_NOTE = ("functions.apply_weights is regenerated from source (site C03.aw, whole function in return style) and proved to be the cell-wise "
+              "meaning of the model's weighting functional; the skipna mean is a hand model of xarray's, validated by the correspondence runs of C05; rmse is checked through rmse^2 (it is the root of the weight-linear mse, see C05)")
 TECHNIQUE = "Coq proof about the weighting functional + metamorphic relations (w, c*w, w1+w2, unit, broadcast) on the implementation"
 TIE_IS_SPEC = True
-SITES = []
+SITES = ["C03.aw"]
 RULE = ("random labelled arrays with weights on sub/supersets of the data dims, non-negative dyadic weights with NaN; relations w vs c*w, "
         "w1+w2 (equal masks), unit weights, explicit broadcast; distinct by hash of (function, inputs, relation); non-trivial = result finite somewhere")
 
